@@ -134,6 +134,10 @@ pub fn app(mut ctx: RequestContext, res: &mut ResponseHandle) -> io::Result<()> 
         let h: Headers = Headers::from(&fields[..]);
         let d = describe(&ctx, b"");
         res.ok(&h, d)
+    } else if let Some(ms) = path.strip_prefix("/sleepthen0/") {
+        // stay in the handler first, then a body-less answer (used by the warm-up connection whose peer has reset by then)
+        std::thread::sleep(Duration::from_millis(ms.parse().unwrap_or(1)));
+        res.ok0(&nd)
     } else if path.starts_with("/empty0") {
         // a body-less answer through ok0 / send0 (alternating)
         static FLIP: AtomicBool = AtomicBool::new(false);
@@ -240,7 +244,12 @@ pub struct Conn {
 pub enum Quiet { Blocked, Finished, Held, Timeout }
 
 impl Conn {
-    pub fn start(max_head: usize) -> Conn {
+    pub fn start(max_head: usize) -> Conn { Conn::start_warm(max_head, None) }
+
+    /// `warm` = a connection served on the SAME thread beforehand by another server with the given head limit:
+    /// ('o', limit): a plain exchange; ('r', limit): the peer resets the connection while the handler sleeps, so that the
+    /// handler's body-less answer cannot be written (whatever a thread keeps from one connection to the next must not show)
+    pub fn start_warm(max_head: usize, warm: Option<(char, usize)>) -> Conn {
         let listener = TcpListener::bind("127.0.0.1:0").unwrap();
         let addr = listener.local_addr().unwrap();
         let client = TcpStream::connect(addr).unwrap();
@@ -253,6 +262,28 @@ impl Conn {
         HELD.store(false, Ordering::SeqCst);
         GO.store(false, Ordering::SeqCst);
         let handle = std::thread::spawn(move || {
+            if let Some((kind, lim)) = warm {
+                let l = TcpListener::bind("127.0.0.1:0").unwrap();
+                let a = l.local_addr().unwrap();
+                let ch = std::thread::spawn(move || {
+                    let mut c = match TcpStream::connect(a) { Ok(c) => c, Err(_) => return };
+                    if kind == 'o' {
+                        let _ = c.write_all(b"GET /none HTTP/1.1\r\nConnection: close\r\n\r\n");
+                        let mut v = Vec::new(); c.set_read_timeout(Some(Duration::from_secs(2))).ok(); let _ = c.read_to_end(&mut v);
+                    } else {
+                        let _ = c.write_all(b"GET /sleepthen0/30 HTTP/1.1\r\n\r\n");
+                        std::thread::sleep(Duration::from_millis(5));
+                        let lg = libc::linger { l_onoff: 1, l_linger: 0 };
+                        unsafe { libc::setsockopt(c.as_raw_fd(), libc::SOL_SOCKET, libc::SO_LINGER, &lg as *const _ as *const libc::c_void, std::mem::size_of::<libc::linger>() as libc::socklen_t); }
+                        drop(c);
+                    }
+                });
+                if let Ok((s2, _)) = l.accept() {
+                    let server2 = build_server(lim);
+                    let _ = std::panic::catch_unwind(std::panic::AssertUnwindSafe(|| server2.handle(&s2)));
+                }
+                let _ = ch.join();
+            }
             tid2.store(unsafe { libc::syscall(libc::SYS_gettid) } as i32, Ordering::SeqCst);
             let server = build_server(max_head);
             let r = std::panic::catch_unwind(std::panic::AssertUnwindSafe(|| server.handle(&srv)));
@@ -369,8 +400,12 @@ pub fn parse_response(buf: &[u8]) -> Option<(usize, String)> {
 pub fn run(case: &str) -> String {
     crate::util::note_current(case);
     let mut steps = case.split(';');
-    let n: usize = steps.next().unwrap().strip_prefix("N=").unwrap().parse().unwrap();
-    let mut conn = Conn::start(n);
+    // `N=<limit>` or `N=<limit>,W<o|r><limit of the warm-up server>`
+    let ntok = steps.next().unwrap().strip_prefix("N=").unwrap();
+    let (n, warm): (usize, Option<(char, usize)>) = match ntok.split_once(",W") {
+        Some((a, w)) => (a.parse().unwrap(), Some((w.chars().next().unwrap(), w[1..].parse().unwrap()))),
+        None => (ntok.parse().unwrap(), None) };
+    let mut conn = Conn::start_warm(n, warm);
     let mut outs: Vec<String> = Vec::new();
     for st in steps {
         if st.is_empty() { continue; }
